@@ -63,6 +63,7 @@ type Contract struct {
 	Decl    *ast.FuncDecl
 	Clause  *ast.CaseClause // for clause units
 	MapLoop bool            // map-range unit (maprange.go)
+	Frame   string          // frame unit T.f (frame.go)
 	ResVars []string
 	PreDecls []ast.Stmt
 	LitAsserts []*LitAssert
@@ -288,6 +289,11 @@ func parseContractsData(data []byte, file string, pkgPath string) ([]*Contract, 
 				return nil, fmt.Errorf("%s:%d: maploop FUNC N", file, ln+1)
 			}
 			cur = &Contract{Name: f[0] + "/maploop " + f[1], Pkg: pkgPath, Loops: map[int]*LoopSpec{}, File: file, Line: ln + 1, Mode: "int", Opts: map[string]string{}, MapLoop: true}
+			loop = nil
+			out = append(out, cur)
+		case "frame":
+			// `frame T.f`: no function of the package assigns field f of struct T (frame.go)
+			cur = &Contract{Name: "frame " + rest, Pkg: pkgPath, Loops: map[int]*LoopSpec{}, File: file, Line: ln + 1, Mode: "int", Opts: map[string]string{}, Frame: rest}
 			loop = nil
 			out = append(out, cur)
 		case "props":
@@ -610,6 +616,10 @@ func (pk *Pkg) injectAndRecheck(w *World) error {
 	for _, c := range pk.Contracts {
 		name := c.Name
 		label := ""
+		if c.Frame != "" {
+			pk.ByName[c.Name] = c
+			continue
+		}
 		if c.MapLoop {
 			fn, _, _ := strings.Cut(name, "/maploop ")
 			fd := pk.FuncDecls[fn]
